@@ -5,31 +5,37 @@ import RsMatterVerif.Model.TxGuard
 /-!
 # C15 — a nonce is never used for two different messages
 
-Theorems over `Model/Transport.lean`:
-1. send counters: on every history of operations on a session, a message that is not a
-   retransmission carries a counter strictly greater than every earlier one
-   (`new_counter_above_all_earlier`); two wire messages with the same counter ⇒ the later one is a
-   retransmission (`same_counter_is_retransmission`);
-2. a retransmission is identical in everything the transport decides: same counter, same
-   piggy-backed acknowledgement, for every interleaving with received messages that respect the
-   one-outstanding-message discipline (`retransmissions_identical`); the discipline is needed
-   (`ack_changes_without_discipline`);
-3. identifiers: the allocators never return an id that is live (`nextSessId_fresh`,
-   `nextExchId_fresh`), for every table state; responder exchanges are opened only when no live
-   exchange has that (id, role) (`exchUniq_postRecv`); hence (id, role) stays unique
-   among the live exchanges of a session under every receive, initiate and drop step
-   (`exchUniq_postRecv`, `initiate_keeps_uniq`, `exchUniq_removeExch`).
-
-4. payloads: a retransmission is produced by running the message builder again; since the repo fix
-   `C15-retransmission-rebuilt-differs` the transport refuses to send a rebuilt message whose digest
-   differs from the first transmission's (`Model/TxGuard.lean`): whatever the builder does, everything
-   that reaches the wire for one message carries one counter and one digest
-   (`guard_one_payload_per_counter`), an idempotent builder is never refused
-   (`guard_idempotent_never_refused`), a builder that changes its output ends the send loop with an
-   error before the changed message is sent (`guard_refuses_first_difference`).
-
-The model's counters are unbounded naturals; the Rust `u32` send counter starts below 2^28 and the
-correspondence holds while it stays below 2^32 (stated in `docs/C15.md`).
+Theorems over `Model/Transport.lean`, `Model/TxWire.lean`, `Model/TxGuard.lean`:
+1. send counters (whole histories of `Session::pre_send` / `post_recv` / slot operations, `runS`):
+   `new_counter_above_all_earlier`, and with the `u32` bound as an explicit hypothesis
+   (`start + number of operations ≤ 2^32`) `new_counter_above_all_earlier_u32`;
+   `counter_wraps_without_bound` (the hypothesis is needed: no roll-over handling in the code);
+   `same_counter_is_retransmission` concludes only the FLAG `ctr.is_some()` of `Session::pre_send`;
+1b. **one counter, one message** (`same_counter_same_message`): over the four call sites of
+   `Session::pre_send` (`Model/TxWire.lean`: `TxMessage::complete` with the retransmission guard,
+   the duplicate's acknowledgement WITHOUT exchange slot, `CloseSession`, the owed acknowledgement of a
+   dropped exchange without pending retransmission), for every history that respects the exchange
+   discipline at every receive and stays below `2^32` messages: two messages handed to the transport
+   with the same counter have the same exchange id, initiator flag, reliable flag, acknowledgement
+   field and content digest. `dupAck_through_exchange_breaks`: the statement is false for the call site
+   of the seeded defect (the acknowledgement written through the exchange's slot);
+2. one exchange's reliability layer: `retransmissions_identical`,
+   `original_and_retransmissions_identical` (the first transmission is part of the trace),
+   `ack_changes_without_discipline`, `retransmission_reuses_counter` (one step);
+3. the allocators, one call: `nextSessId_fresh`, `nextExchId_fresh` (+ `_range`), and with the
+   non-termination of the Rust loops explicit: `allocators_terminate` (within the capacities
+   `MAX_SESSIONS` / `MAX_EXCHANGES` the loops terminate and the model's total `allocLoop` computes their
+   answer; the `length < 65535` hypotheses follow from `Consts`), `nextExchIdD_fresh` (including the
+   lazy seeding from `next_exch_id = 0`);
+4. (id, role) of the live exchanges of a session, one step: `exchUniq_postRecv`, `exchUniq_addInit`,
+   `exchUniq_removeExch`, `initiate_keeps_uniq`;
+5. **along every history**: `sessIds_unique_always` (add / `get_next_sess_id` / `update` installing a
+   handed-out id / abandon / complete / remove / eviction, under `staleFree`: no handed-out id stays
+   un-installed for 65535 further candidates — `stale_id_is_handed_out_again` shows the hypothesis is
+   needed), `exchIds_unique_always` (initiate / receive / drop / accept / send / freed slot / session
+   added / removed, from any table within capacity, the never-used one included);
+6. payloads (`Model/TxGuard.lean`, one message's send loop): `guard_one_payload_per_counter`,
+   `guard_idempotent_never_refused`, `guard_refuses_first_difference`.
 -/
 namespace C15
 open Transport
@@ -540,7 +546,8 @@ theorem retransmission_reuses_counter (s : Sess) (i : Nat) (e : Exch) (r : Retra
 /-! ## 3. Identifiers -/
 
 /-- `get_next_sess_id` never returns the local id of a session in the table — for every table
-with fewer than 65535 sessions (the capacity is `Consts.maxSessions`). -/
+with fewer than 65535 sessions (the capacity is `Consts.maxSessions`: `Transport.cap_lengths` derives
+the hypothesis from `Cap`; `allocators_terminate`: within the capacity the Rust loop terminates). ONE call. -/
 theorem nextSessId_fresh (t : Table) (h1 : 1 ≤ t.nextSid) (h2 : t.nextSid ≤ 65535)
     (hlen : t.sessions.length < 65535) : t.nextSessId.2 ∉ t.liveSessIds := by
   unfold Table.nextSessId
@@ -553,7 +560,9 @@ theorem nextSessId_range (t : Table) :
   exact allocLoop_next_range _ _ _
 
 /-- `get_next_exch_id` (after the repair) never returns the id of a live initiator-role exchange of
-any session — for every table with fewer than 65535 such exchanges. -/
+any session — for every table with fewer than 65535 such exchanges, allocator already seeded
+(`1 ≤ nextExch`; the never-used table with `nextExch = 0` goes through the seeding branch:
+`nextExchIdD_fresh`). ONE call. -/
 theorem nextExchId_fresh (t : Table) (h1 : 1 ≤ t.nextExch) (h2 : t.nextExch ≤ 65535)
     (hlen : t.liveInitExchIds.length < 65535) : t.nextExchId.2 ∉ t.liveInitExchIds := by
   unfold Table.nextExchId
@@ -1124,7 +1133,7 @@ example :
       [[none, some (0x1235, false), some (0x1234, true), some (0x1236, false)]] := by
   decide
 
-/-! ## 4. The payload of a retransmission (`TxMessage::complete`, repo fix `C15-retransmission-rebuilt-differs`) -/
+/-! ## 6. The payload of a retransmission (`TxMessage::complete`, repo fix `C15-retransmission-rebuilt-differs`) -/
 
 open TxGuard in
 theorem sendLoop_some (c f : Nat) (ds : List Nat) :
